@@ -4,7 +4,7 @@ Same conventions as rules.py: every rule is a generic syntactic idiom with captu
 sub-expressions are re-emitted unchanged, a rule returns (new_body, times_fired) and raises LostAnchor
 rather than guess.  The prelude items the rules refer to are in vx/prelude/model.rs.
 
-  R2   `for P in A..B { body }`                       -> index `while` loop (so `continue` is allowed)
+  (R2  `for P in A..B { body }` with `continue` lives in rules.py; bfs.rs does not need it)
   R3   `for (I, X) in V.iter().enumerate() { body }`  -> index `while` loop with `let X = &V[I];`
   R6   call of a fn-pointer binding `condition: F`    -> `call_cond(F, args)`
   R7   `&DashMap` / `&DashSet` / `&AtomicUsize` params -> `&mut SeqMap` / `SeqSet` / `Counter` (A-SEQ),
@@ -56,33 +56,10 @@ def _first_code_match(rx, body, mask, start=0):
 
 
 def _index_while(var, lo, hi, prelude_lets, inner):
-    """the common shape R2 / R3 produce; the counter is `<var>_`, incremented before the body so that a
+    """the R2-style index loop R3 produces; the counter is `<var>_`, incremented before the body so that a
     `continue` inside the body keeps the iteration order of the `for`."""
     return ('let mut %s_ = %s;\n        while %s_ < %s {\n            let %s = %s_;%s\n            %s_ += 1;'
             % (var, lo, var, hi, var, var, prelude_lets, var)) + inner
-
-
-def R2(body, ctx):
-    """`for I in A..B { body }`  ->  `let mut I_ = A; while I_ < B { let I = I_; I_ += 1; body }`
-    (B is evaluated once by `for`; the rule demands that B is an identifier, a literal or `X.len()` of an
-    identifier the body does not assign)."""
-    mask = code_mask(body)
-    rx = re.compile(r'for\s+(%s)\s+in\s+([^{};]+?)\.\.([^{};=]+?)\s*\{' % IDENT)
-    n = 0
-    while True:
-        m = _first_code_match(rx, body, mask)
-        if not m:
-            break
-        var, lo, hi = m.group(1), m.group(2).strip(), m.group(3).strip()
-        if not re.fullmatch(r'(%s(\.len\(\))?|[0-9_]+(usize)?)' % IDENT, hi):
-            raise LostAnchor('R2: upper bound `%s` is not a simple expression' % hi)
-        ob = m.end() - 1
-        cb = match_close(body, ob, mask)
-        inner = body[ob + 1:cb]
-        body = body[:m.start()] + _index_while(var, lo, hi, '', inner) + body[cb:]
-        mask = code_mask(body)
-        n += 1
-    return body, n
 
 
 def R3(body, ctx):
